@@ -143,7 +143,6 @@ type paiCase struct {
 	N       *big.Int
 	factors []*big.Int
 	observe bool // not a violation if accepted (statement is inside the proof's language)
-	note    string
 }
 
 func (e *env) paillierProofTasks() {
@@ -212,12 +211,7 @@ func (e *env) paillierProofTasks() {
 					e.r.Distinct("observed", fmt.Sprintf("paillier key proof for a PRIME modulus (%s): accepted=%v (inside this proof's language: gcd(N,phi)=1, no factor <1000; the mod proof is the one that must refuse primes)", c.variant, res.acc && res.err == nil))
 					return
 				}
-				fam := c.fam
-				if fam == "small-prime-factor" {
-					fam += "/" + c.variant
-				} else {
-					fam += "/" + c.variant
-				}
+				fam := c.fam + "/" + c.variant
 				rec := map[string]interface{}{"N": hexs(c.N), "factors": hexList(c.factors), "k": hexs(k.v), "ecdsaPub": "ECDSAPub of test/_ecdsa_fixtures/keygen_data_0.json",
 					"prover": prover, "root_equations_holding": holds, "proof": hexArr(pf[:])}
 				t.sample = map[string]interface{}{"case": t.canon, "prover": prover, "root_equations_holding_of_13": holds}
